@@ -6,22 +6,35 @@ pub uninterp spec fn fetched_tx_ok(tx: Transaction, hwe: HeaderWithExtension) ->
 pub uninterp spec fn missing_report_ok(hashes: Seq<Byte32>) -> bool;
 pub uninterp spec fn was_requested(hash: Seq<u8>) -> bool;     // the hash was in the user's fetch table
 pub uninterp spec fn hash_proven(x: Seq<u8>) -> bool;     // the hash of a proven header (introduction rule def_hash_proven)
+// C16 evidence: the peer's requested entries were marked timeout (re-armed) / the given missing list was recorded
+pub uninterp spec fn headers_rearmed(index: PeerIndex) -> bool;
+pub uninterp spec fn txs_rearmed(index: PeerIndex) -> bool;
+pub uninterp spec fn missing_marked(hashes: Seq<Byte32>) -> bool;
+pub uninterp spec fn headers_answered(index: PeerIndex) -> bool;
+pub uninterp spec fn txs_answered(index: PeerIndex) -> bool;
+pub uninterp spec fn headers_release_ok(index: PeerIndex) -> bool;
+pub uninterp spec fn txs_release_ok(index: PeerIndex) -> bool;
 pub open spec fn all_hashes_proven(hashes: Seq<Byte32>) -> bool {
     forall|i: int| 0 <= i < hashes.len() ==> hash_proven((#[trigger] hashes[i])@)
 }
 impl Peers {
     #[verifier::external_body]
     pub fn get_peer(&self, index: &PeerIndex) -> (r: Option<Peer>) { unimplemented!() }
+    // GATE (C16 "never lost when the serving peer times out or disconnects"): the fetch entries of a request can be re-armed
+    // (marked timeout, hence re-sent) only THROUGH the peer's pending request; so the request may be dropped only with the
+    // evidence that its entries were re-armed or that the response answered them (removed as fetched / marked missing)
     #[verifier::external_body]
-    pub fn update_blocks_proof_request(&self, index: PeerIndex, request: Option<packed::GetBlocksProof>, should_get_blocks: bool) { unimplemented!() }
+    pub fn update_blocks_proof_request(&self, index: PeerIndex, request: Option<packed::GetBlocksProof>, should_get_blocks: bool)
+        requires request.is_none() ==> headers_release_ok(index) { unimplemented!() }
     #[verifier::external_body]
-    pub fn update_txs_proof_request(&self, index: PeerIndex, request: Option<packed::GetTransactionsProof>) { unimplemented!() }
+    pub fn update_txs_proof_request(&self, index: PeerIndex, request: Option<packed::GetTransactionsProof>)
+        requires request.is_none() ==> txs_release_ok(index) { unimplemented!() }
     #[verifier::external_body]
     pub fn update_blocks_request(&self, index: PeerIndex, hashes: Option<Vec<Byte32>>) { unimplemented!() }
     #[verifier::external_body]
-    pub fn mark_fetching_headers_timeout(&self, index: PeerIndex) { unimplemented!() }
+    pub fn mark_fetching_headers_timeout(&self, index: PeerIndex) ensures headers_rearmed(index) { unimplemented!() }
     #[verifier::external_body]
-    pub fn mark_fetching_txs_timeout(&self, index: PeerIndex) { unimplemented!() }
+    pub fn mark_fetching_txs_timeout(&self, index: PeerIndex) ensures txs_rearmed(index) { unimplemented!() }
     // GATE (C02): a matched block is flagged "proved" (=> its body will be accepted and indexed) only for proven headers
     #[verifier::external_body]
     pub fn mark_matched_blocks_proved(&self, matched_blocks: &mut MBGuard, block_hashes: &[Byte32])
@@ -36,10 +49,10 @@ impl Peers {
     // GATE (C16): not_found only when a verified response that matches the request reported the hash missing
     #[verifier::external_body]
     pub fn mark_fetching_headers_missing(&self, block_hashes: &[Byte32])
-        requires missing_report_ok(block_hashes@) { unimplemented!() }
+        requires missing_report_ok(block_hashes@) ensures missing_marked(block_hashes@) { unimplemented!() }
     #[verifier::external_body]
     pub fn mark_fetching_txs_missing(&self, tx_hashes: &[Byte32])
-        requires missing_report_ok(tx_hashes@) { unimplemented!() }
+        requires missing_report_ok(tx_hashes@) ensures missing_marked(tx_hashes@) { unimplemented!() }
 }
 impl Storage {
     // GATE (C02): a header is stored as fetched only if proven (and, with an extension, only if the extra hash commits to it)
